@@ -47,7 +47,17 @@ Definition mon_ers (sn : ers_snapshot) (obs : ers_obs) : list N :=
                | RoleCanary =>
                    ob_panic obs || ob_error obs || negb (Nat.eqb (length (f_patch (sn_faults sn))) 0) ||
                    subsetNb (canary_label_targets rs cx) (ob_label_adds obs)
-               | _ => true end) 16
+               | _ => true end) 16 ++
+      (* 17: pods lose the canary label once their replica set has become active: within the clean-up window that follows
+         the activation, the active replica set's sync removes the label from every pod of its own that carries it -
+         also while a NEWER canary is in progress *)
+      code_if (match cx_role cx, ers_rolling sn cx with
+               | RoleActive, Some rp =>
+                   ob_panic obs || negb (tsub (sn_now sn) (rp_start rp) <? CLEAN_LABELS_THRESHOLD) ||
+                   subsetNb (pod_names (filter (fun p => N.eqb (p_ns p) (r_ns rs) && p_is_canary_labelled p &&
+                                                         N.eqb (p_rs_label p) (r_name rs)) (sn_pods sn)))
+                            (ob_label_dels obs)
+               | _, _ => true end) 17
   end.
 
 (** 18: the ExtendedDaemonSet reconcile never adds nodes beyond the resolved replicas *)
